@@ -396,28 +396,35 @@ inductive AOut (M : Type) where
   /-- `next == nil` or the cancel flag is set: the iteration is discarded, `st.Canceled = true; break` -/
   | cancelled (s : Eng M)
 
+/-- the loop state after a completed iteration: `v = nv; st = m.st.Merge(st); ms = next`, branching statistics -/
+def iterAcc (i : Int) (a : ALoop M) (next : List M) (nv : Int) (s : Eng M) : ALoop M :=
+  { ms := next, v := nv, st := s.st.merge a.st, prevEval := s.st.evaluated
+    branchSum := if i > 1 then a.branchSum + s.st.evaluated / (a.prevEval + 1) else a.branchSum }
+
+/-- the end of a completed iteration: `break` on a decisive value or when the `MaxEvals` estimate says so -/
+def iterDone (cfg : Cfg) (base i : Int) (a : ALoop M) (next : List M) (nv : Int) (s : Eng M) : AOut M :=
+  let a := iterAcc i a next nv s
+  if nv > Facts.winThreshold || nv < -Facts.winThreshold then .done a s
+  else if cfg.maxEvals > 0 && i + base != cfg.depth then
+    let branchEstimate : Nat := if i > 2 then a.branchSum / (i - 1).toNat else 5
+    if s.st.evaluated * branchEstimate > cfg.maxEvals then .done a s
+    else .go a s
+  else .go a s
+
+/-- `if next == nil || atomic.LoadInt32(m.cancel) != 0 { st.Canceled = true; break }` (the flag is loaded only
+when `next != nil`), else the iteration counts -/
+def iterEnd (cfg : Cfg) (o : Oracle M) (base i : Int) (a : ALoop M) (r : Res M × Eng M) : AOut M :=
+  match r.1.1 with
+  | none => .cancelled r.2
+  | some next =>
+    if (load o r.2).1 then .cancelled (load o r.2).2
+    else iterDone cfg base i a next r.1.2 (load o r.2).2
+
 /-- one iteration of `Analyze`'s deepening loop -/
 def analyzeStep [DecidableEq M] (g : Game P M) (cfg : Cfg) (o : Oracle M) (p : P) (base : Int)
-    (i : Int) (a : ALoop M) (s : Eng M) : Except Err (AOut M) := do
-  let s := { s with st := { depth := i + base } }
-  let r ← pvSearch g cfg.opts o 0 p (i + base) a.ms (Facts.minEval - 1) (Facts.maxEval + 1) s
-  let nv := r.1.2
-  -- `if next == nil || atomic.LoadInt32(m.cancel) != 0`: the flag is loaded only when `next != nil`
-  match r.1.1 with
-  | none => pure (.cancelled r.2)
-  | some next =>
-    let c := load o r.2
-    let s := c.2
-    if c.1 then pure (.cancelled s) else
-    let st := s.st.merge a.st
-    let branchSum := if i > 1 then a.branchSum + s.st.evaluated / (a.prevEval + 1) else a.branchSum
-    let a : ALoop M := { ms := next, v := nv, st := st, prevEval := s.st.evaluated, branchSum := branchSum }
-    if nv > Facts.winThreshold || nv < -Facts.winThreshold then pure (.done a s)
-    else if cfg.maxEvals > 0 && i + base != cfg.depth then
-      let branchEstimate : Nat := if i > 2 then branchSum / (i - 1).toNat else 5
-      if s.st.evaluated * branchEstimate > cfg.maxEvals then pure (.done a s)
-      else pure (.go a s)
-    else pure (.go a s)
+    (i : Int) (a : ALoop M) (s : Eng M) : Except Err (AOut M) :=
+  (pvSearch g cfg.opts o 0 p (i + base) a.ms (Facts.minEval - 1) (Facts.maxEval + 1)
+    { s with st := { depth := i + base } }).bind fun r => .ok (iterEnd cfg o base i a r)
 
 /-- `for i := 1; i+base <= m.Cfg.Depth; i++ { … }`; `n` bounds the remaining iterations -/
 def analyzeLoop [DecidableEq M] (g : Game P M) (cfg : Cfg) (o : Oracle M) (p : P) (base : Int) :
@@ -431,21 +438,27 @@ def analyzeLoop [DecidableEq M] (g : Game P M) (cfg : Cfg) (o : Oracle M) (p : P
     | .ok (.done a s) => .ok (a, s)
     | .ok (.go a s) => analyzeLoop g cfg o p base n (i + 1) a s
 
+/-- the seeding of iterative deepening from the root's table entry (`minimax.go` 365-372, after
+`fixes/C05-reanalyze.diff`): an exact entry gives the start depth, a one-move PV and the value -/
+def seedOf (te : Option (TEntry M)) : Int × List M × Int :=
+  match te with
+  | some e => if e.bound == Facts.exactBound then (e.depth, [e.m], e.value) else (0, [], 0)
+  | none => (0, [], 0)
+
+/-- the deepening loop of `Analyze` from a seed `(base, ms, v)`, and the returned triple -/
+def analyzeFrom [DecidableEq M] (g : Game P M) (cfg : Cfg) (o : Oracle M) (p : P) (seed : Int × List M × Int)
+    (s : Eng M) : Except Err ((List M × Int × Stats) × Eng M) :=
+  match analyzeLoop g cfg o p seed.1 (cfg.depth - seed.1).toNat 1
+      ⟨seed.2.1, seed.2.2, { depth := seed.1 }, 0, 0⟩ s with
+  | .error e => .error e
+  | .ok (a, s) => .ok ((a.ms, a.v, a.st), s)
+
 /-- `Analyze` (context without deadline).  The per-call cancel flag is fresh: the load/evaluation counters
 the cancel oracle is indexed by restart at 0. -/
 def analyze [DecidableEq M] (g : Game P M) (cfg : Cfg) (o : Oracle M) (p : P) (s : Eng M) :
     Except Err ((List M × Int × Stats) × Eng M) :=
-  let s := { s with loads := 0, evals := 0, sorts := 0, rnds := 0 }
-  match ttGet s (g.hash p) with
-  | .error e => .error e
-  | .ok te =>
-    let (base, ms, v) : Int × List M × Int :=
-      match te with
-      | some e => if e.bound == Facts.exactBound then (e.depth, [e.m], e.value) else (0, [], 0)
-      | none => (0, [], 0)
-    match analyzeLoop g cfg o p base (cfg.depth - base).toNat 1 ⟨ms, v, { depth := base }, 0, 0⟩ s with
-    | .error e => .error e
-    | .ok (a, s) => .ok ((a.ms, a.v, a.st), s)
+  (ttGet { s with loads := 0, evals := 0, sorts := 0, rnds := 0 } (g.hash p)).bind fun te =>
+    analyzeFrom g cfg o p (seedOf te) { s with loads := 0, evals := 0, sorts := 0, rnds := 0 }
 
 /-- the generator literal of `GetMove`/`AnalyzeAll`: `ply 0`, no table entry -/
 def rootMG (depth : Int) (pv : List M) : MG M := ⟨0, depth, none, pv⟩
